@@ -16,7 +16,7 @@ import (
 	"verif/internal/wx"
 )
 
-var suite = vrt.NewSuite("C12", "(script recipe, data element): (1) exhaustive matrix: every operator (== != < > <= >= && || ! exists has + - * / in empty =~ length count match search) x left operand kind x right operand kind over {nil, bool, int64, float64, string, array, map, missing path, multi-valued path, constants} with several values per kind; (2) rapid: nested scripts to depth 3 built through the jp equation constructors on random elements (simple and gen). Oracle: Script.Match, Eval and Get through a filter never panic; for the fixed-semantics operators the truth value equals the reference semantics of the property statement (numbers by value, strings lexical, == / != complementary for every kind, ordering across kinds false, missing path = Nothing, any-combination for multi-valued operands); algebraic laws ((a!=b) == !(a==b), a<b <=> b>a, a<=b <=> a<b or a==b on same kinds); Script.Match(v) <=> v in Get($[?script], [v]). Non-trivial = operands of different kinds, an int/float mix, a container operand, or a sub-path yielding 0 or >=2 values; distinct = distinct (script, element)")
+var suite = vrt.NewSuite("C12", "(script recipe, data element): (1) exhaustive matrix: every operator (== != < > <= >= && || ! exists has + - * / in empty =~ length count match search) x left operand kind x right operand kind over {nil, bool, int64, float64, string, array, map, missing path, multi-valued path, constants} with several values per kind; (2) rapid: nested scripts to depth 3 built through the jp equation constructors on random elements (simple and gen). Oracle: Script.Match, Eval and Get through a filter never panic; for the fixed-semantics operators the truth value equals the reference semantics of the property statement (numbers by value, strings lexical, == / != complementary for every kind, ordering across kinds false, missing path = Nothing, any-combination for multi-valued operands); algebraic laws ((a!=b) == !(a==b), a<b <=> b>a, a<=b <=> a<b or a==b on same kinds); Script.Match(v) <=> v in Get($[?script], [v]); a script that reads $ is also evaluated as $.items[?script] inside a root that has members of the same names with other values; the script read back from its text by jp.NewScript and, as a filter, by jp.ParseString evaluates like the one that was built. Non-trivial = operands of different kinds, an int/float mix, a container operand, or a sub-path yielding 0 or >=2 values; distinct = distinct (script, element)")
 
 type Case struct {
 	Eq   *jpx.Eq `json:"eq"`
